@@ -17,7 +17,7 @@ Oracle (neither part copies maintransformer.py):
   listed, never asserted.
 """
 import collections
-import itertools
+import copy
 import shutil
 import subprocess
 import sys
@@ -615,7 +615,37 @@ def cell_key(a, site):
     return '%s|%s|%s' % (AR.form_of(a), site['cat'], site['dir'])
 
 
+SIG_FUNDAMENTAL = frozenset(['int', 'guint', 'gboolean', 'double', 'GType', 'str', 'gpointer'])
+
+
+def crash_shapes(c, vid, v, a):
+    """Keys of recorded crash findings that annotation a on value v is an instance of."""
+    if c['kind'] == 'signal':
+        if vid == 'ret' and a[0] == 'array' and array_length_name(a) is not None and target_index(c, array_length_name(a)) is not None:
+            yield 'crash:signal-return-array-length'
+        if a[0] == 'type' and len(a) == 2 and AR.TYPE_SPECS.get(a[1]) is None and v['kind'] not in SIG_FUNDAMENTAL \
+                and v['kind'] != 'void':
+            yield 'crash:unresolvable-type-on-signal-value'
+
+
+def without_known_crashes(case, ctx):
+    """Exclusion by construction: drop exactly the annotations that are instances of an open crash finding."""
+    out = None
+    for ci, c in enumerate(case['callables']):
+        for vid, v in values_of(c):
+            for k in range(len(v['ann']) - 1, -1, -1):
+                for key in crash_shapes(c, vid, v, v['ann'][k]):
+                    if ctx.known(key):
+                        if out is None:
+                            out = copy.deepcopy(case)
+                        oc = out['callables'][ci]
+                        del (oc['ret'] if vid == 'ret' else oc['params'][vid])['ann'][k]
+                        break
+    return case if out is None else out
+
+
 def check_case(case, ctx):
+    case = without_known_crashes(case, ctx)
     cs = case['callables']
     # domain guard (replayed / shrunk cases): no reference to the instance parameter or to the removed GError**
     for c in cs:
